@@ -22,6 +22,11 @@ pub struct Case {
     /// long-gap mode: `lines`, then this many pairwise distinct filler rows, then `lines` again
     #[serde(default)]
     pub filler: usize,
+    /// statements with a JOIN: the joined table and its file
+    #[serde(default)]
+    pub joined: Option<DataTable>,
+    #[serde(default)]
+    pub joined_lines: Vec<String>,
 }
 
 pub struct C08;
@@ -238,11 +243,23 @@ impl Property for C08 {
 
     fn generate(&self, t: &mut Tape, ctx: &Ctx) -> Case {
         let mut opts = QOpts::all();
-        opts.join = false;
         opts.limit = false;
         opts.order_sensitive = false;
+        opts.join_share = 2;
         let mut g = gen_query(t, ctx, opts);
         g.query.distinct = true;
+        let joined_lines = g.joined.as_ref().map(|j| gen_data(t, j, 8)).unwrap_or_default();
+        if let (Some(j), true) = (&g.joined, g.query.group_by.is_empty() && g.query.having.is_none() && t.chance(1, 2)) {
+            // only columns of the queried table are projected, the filter looks at a joined column: several partners of
+            // one line then give the same tuple, and whether the line shows depends on any partner passing the filter
+            let left: Vec<String> = g.table.cols.iter().filter(|c| !j.cols.iter().any(|r| r.0 == c.0)).map(|c| c.0.clone()).collect();
+            let right_int: Vec<String> = j.cols.iter().filter(|c| c.1 == Ty::Int).map(|c| if g.table.cols.iter().any(|l| l.0 == c.0) { format!("u.{}", c.0) } else { c.0.clone() }).collect();
+            if !left.is_empty() && !right_int.is_empty() && !g.query.items.iter().any(|(e, _)| matches!(e, crate::sql::E::Agg(_, _, _))) {
+                let n = 1 + t.draw(2);
+                g.query.items = (0..n).map(|i| (crate::sql::E::col(t.pick(&left).as_str()), Some(format!("r{}", i)))).collect();
+                g.query.filter = Some(crate::sql::E::bin(*t.pick(&crate::sql::BinOp::CMP), crate::sql::E::col(t.pick(&right_int).as_str()), crate::sql::E::Int(t.range(0, 2))));
+            }
+        }
         if ctx.excluded("c08_aggregate_distinct_without_having") && !g.query.group_by.is_empty() && g.query.having.is_none() {
             g.query.distinct = true;
         }
@@ -304,7 +321,7 @@ impl Property for C08 {
             query.items = vec![(crate::sql::E::Star, None)];
             query.filter = None;
         }
-        Case { table: g.table, query, lines, filler }
+        Case { table: g.table, query, lines, filler, joined: g.joined, joined_lines }
     }
 
     fn check(&self, case: &Case, ctx: &Ctx, obs: &mut Obs) -> Result<(), Failure> {
@@ -314,8 +331,11 @@ impl Property for C08 {
         }
         let mut plain_q = case.query.clone();
         plain_q.distinct = false;
-        let with = prepare(ctx, &case.table, None, &case.query, &[], "c08")?;
-        let without = prepare(ctx, &case.table, None, &plain_q, &[], "c08")?;
+        let with = prepare(ctx, &case.table, case.joined.as_ref(), &case.query, &case.joined_lines, "c08")?;
+        let without = prepare(ctx, &case.table, case.joined.as_ref(), &plain_q, &case.joined_lines, "c08w")?;
+        if case.joined.is_some() {
+            obs.label("join");
+        }
         let files = scratch_files(ctx, "c08", &[lines_to_bytes(&lines_all)]);
         let context = format!("query: {}\n  table: {}\n  lines: {:?}{}", with.text, with.defs, case.lines, if case.filler > 0 { format!(" then {} distinct filler rows, then the same lines again", case.filler) } else { String::new() });
         let panic_fail = |p: String| Failure::new(format!("panic: {}", crate::run::panic_class(&p)), format!("panicked: {}\n  {}", p, context));
